@@ -1,0 +1,347 @@
+//go:build verif
+
+package federation
+
+// Exports for the conformance harness in /verif (build tag `verif` only; nothing here is compiled into a
+// normal build).  The harness lives outside this package, so it needs constructors and accessors for the
+// unexported pieces of the federation plugin.  No production code path is changed.
+
+import (
+	"runtime"
+	"sort"
+	"sync"
+
+	"github.com/hashicorp/serf/serf"
+	"go.uber.org/zap"
+	"google.golang.org/grpc"
+
+	"github.com/DrmagicE/gmqtt"
+	"github.com/DrmagicE/gmqtt/persistence/subscription"
+	"github.com/DrmagicE/gmqtt/persistence/subscription/mem"
+	"github.com/DrmagicE/gmqtt/retained"
+	"github.com/DrmagicE/gmqtt/server"
+)
+
+var verifOnce sync.Once
+
+// VerifSerf is the membership interface a fake has to implement.
+type VerifSerf = iSerf
+
+// VerifOptions describes a Federation that is built without serf, listeners or a broker.
+type VerifOptions struct {
+	NodeName  string
+	Serf      VerifSerf
+	LocalSubs server.SubscriptionService // the core's subscription store of this node
+	Retained  retained.Store             // the core's retained store of this node
+	Publisher server.Publisher
+}
+
+// VerifNew builds a Federation the way New + Load do, minus serf.Create, the gRPC listener and the join loop.
+// Peers created by member events do not start their own connect loop: the harness drives initStream itself.
+func VerifNew(o VerifOptions) *Federation {
+	verifOnce.Do(func() {
+		if log == nil {
+			log = zap.NewNop()
+		}
+		servePeerEventStream = func(p *peer) {}
+	})
+	f := &Federation{
+		config:        &Config{NodeName: o.NodeName},
+		nodeName:      o.NodeName,
+		localSubStore: &localSubStore{},
+		fedSubStore: &fedSubStore{
+			TrieDB:     mem.NewStore(),
+			sharedSent: map[string]uint64{},
+		},
+		serfEventCh: make(chan serf.Event, 16),
+		sessionMgr: &sessionMgr{
+			sessions: map[string]*session{},
+		},
+		peers: make(map[string]*peer),
+		exit:  make(chan struct{}),
+		serf:  o.Serf,
+	}
+	f.localSubStore.init(o.LocalSubs)
+	f.retainedStore = o.Retained
+	f.publisher = o.Publisher
+	return f
+}
+
+// VerifStartEventHandler runs the real membership event loop (membership.go eventHandler).
+func (f *Federation) VerifStartEventHandler() { go f.eventHandler() }
+
+// VerifStop ends the event loop started by VerifStartEventHandler (it stops all peers).
+func (f *Federation) VerifStop() {
+	select {
+	case <-f.exit:
+	default:
+		close(f.exit)
+	}
+}
+
+// VerifInjectMemberEvent hands a member event to the real event loop and returns after the loop has finished
+// handling it (a second, ignored, user event is queued behind it; the loop is sequential).
+func (f *Federation) VerifInjectMemberEvent(t serf.EventType, names ...string) {
+	ev := serf.MemberEvent{Type: t}
+	for _, n := range names {
+		ev.Members = append(ev.Members, serf.Member{Name: n, Tags: map[string]string{"fed_addr": "verif"}})
+	}
+	f.serfEventCh <- ev
+	f.serfEventCh <- serf.UserEvent{Name: "verif-marker"}
+	for len(f.serfEventCh) != 0 {
+		runtime.Gosched()
+	}
+}
+
+// VerifNodeJoin / VerifNodeFail call the member handlers directly (synchronously, on the caller's goroutine).
+func (f *Federation) VerifNodeJoin(names ...string) {
+	ev := serf.MemberEvent{Type: serf.EventMemberJoin}
+	for _, n := range names {
+		ev.Members = append(ev.Members, serf.Member{Name: n, Tags: map[string]string{"fed_addr": "verif"}})
+	}
+	f.nodeJoin(ev)
+}
+
+func (f *Federation) VerifNodeFail(names ...string) {
+	ev := serf.MemberEvent{Type: serf.EventMemberFailed}
+	for _, n := range names {
+		ev.Members = append(ev.Members, serf.Member{Name: n})
+	}
+	f.nodeFail(ev)
+}
+
+// VerifLockMembers / VerifUnlockMembers hold the lock that serialises queueing of events to the peers.
+func (f *Federation) VerifLockMembers()   { f.memberMu.Lock() }
+func (f *Federation) VerifUnlockMembers() { f.memberMu.Unlock() }
+
+// VerifSendMessage is sendMessage (the forwarding decision of OnMsgArrived / OnWillPublish).
+func (f *Federation) VerifSendMessage(msg *gmqtt.Message) (drop bool, options *subscription.IterationOptions) {
+	return f.sendMessage(msg)
+}
+
+// VerifEventStreamHandler is eventStreamHandler on the session of the given node (nil if it has none).
+func (f *Federation) VerifEventStreamHandler(nodeName string, in *Event) (ack *Ack, ok bool) {
+	sess := f.sessionMgr.get(nodeName)
+	if sess == nil {
+		return nil, false
+	}
+	return f.eventStreamHandler(sess, in), true
+}
+
+// VerifSessionView is a snapshot of the server-side session of a node.
+type VerifSessionView struct {
+	ID          string
+	NextEventID uint64
+	Seen        []uint64 // the duplicate filter, oldest first
+	SeenSize    int
+}
+
+func (f *Federation) VerifSession(nodeName string) (v VerifSessionView, ok bool) {
+	f.sessionMgr.RLock()
+	defer f.sessionMgr.RUnlock()
+	s := f.sessionMgr.sessions[nodeName]
+	if s == nil {
+		return v, false
+	}
+	v.ID, v.NextEventID, v.SeenSize = s.id, s.nextEventID, s.seenEvents.size
+	for e := s.seenEvents.l.Front(); e != nil; e = e.Next() {
+		v.Seen = append(v.Seen, e.Value.(uint64))
+	}
+	return v, true
+}
+
+// VerifSessionCount is the number of server-side sessions.
+func (f *Federation) VerifSessionCount() int {
+	f.sessionMgr.RLock()
+	defer f.sessionMgr.RUnlock()
+	return len(f.sessionMgr.sessions)
+}
+
+// VerifFedSubs is the mirrored view: node name -> sorted full topic names held for that node.
+func (f *Federation) VerifFedSubs() map[string][]string {
+	m := map[string][]string{}
+	f.fedSubStore.Iterate(func(nodeName string, sub *gmqtt.Subscription) bool {
+		m[nodeName] = append(m[nodeName], sub.GetFullTopicName())
+		return true
+	}, subscription.IterationOptions{Type: subscription.TypeAll})
+	for _, v := range m {
+		sort.Strings(v)
+	}
+	return m
+}
+
+// VerifFedSubStore is the mirrored subscription store itself (keyed by node name).
+func (f *Federation) VerifFedSubStore() subscription.Store { return f.fedSubStore.TrieDB }
+
+// VerifSharedSent is the round-robin counter per full shared topic name.
+func (f *Federation) VerifSharedSent() map[string]uint64 {
+	f.fedSubStore.sharedMu.Lock()
+	defer f.fedSubStore.sharedMu.Unlock()
+	m := make(map[string]uint64, len(f.fedSubStore.sharedSent))
+	for k, v := range f.fedSubStore.sharedSent {
+		m[k] = v
+	}
+	return m
+}
+
+// VerifLocalTopics is the reference counter per full topic name of the local node.
+func (f *Federation) VerifLocalTopics() map[string]uint64 {
+	f.localSubStore.Lock()
+	defer f.localSubStore.Unlock()
+	m := make(map[string]uint64, len(f.localSubStore.topics))
+	for k, v := range f.localSubStore.topics {
+		m[k] = v
+	}
+	return m
+}
+
+// VerifPeerNames lists the nodes this node holds a peer (client side of the event stream) for.
+func (f *Federation) VerifPeerNames() []string {
+	f.memberMu.Lock()
+	defer f.memberMu.Unlock()
+	var s []string
+	for k := range f.peers {
+		s = append(s, k)
+	}
+	sort.Strings(s)
+	return s
+}
+
+// VerifPeer gives access to the client side of the event stream towards one node.
+type VerifPeer struct{ p *peer }
+
+func (f *Federation) VerifPeer(name string) *VerifPeer {
+	f.memberMu.Lock()
+	defer f.memberMu.Unlock()
+	if p := f.peers[name]; p != nil {
+		return &VerifPeer{p}
+	}
+	return nil
+}
+
+func (v *VerifPeer) SessionID() string { return v.p.sessionID }
+
+// State is 0 before the first stream, 1 stopped, 2 streaming.
+func (v *VerifPeer) State() int {
+	v.p.stateMu.Lock()
+	defer v.p.stateMu.Unlock()
+	return int(v.p.state)
+}
+
+// Ack is queue.ack on the peer's queue (the harness acknowledges what it has carried to the other node itself).
+func (v *VerifPeer) Ack(id uint64) { v.p.queue.ack(id) }
+
+// Stop is peer.stop.
+func (v *VerifPeer) Stop() { v.p.stop() }
+
+// VerifStream is the client-side stream returned by initStream.
+type VerifStream struct{ s *stream }
+
+// InitStream is peer.initStream: handshake, full-state resynchronisation on a clean start, read position, stream open.
+func (v *VerifPeer) InitStream(client FederationClient, conn *grpc.ClientConn) (*VerifStream, error) {
+	s, err := v.p.initStream(client, conn)
+	if err != nil {
+		return nil, err
+	}
+	return &VerifStream{s}, nil
+}
+
+// Serve is stream.serve: it starts readLoop and sendEvents and returns when both have ended.
+func (s *VerifStream) Serve() error { return s.s.serve() }
+
+// VerifQueueHooks are called by the gated queue (on the goroutine of the caller of the queue method).
+type VerifQueueHooks struct {
+	BeforeFetch func() // sendEvents is about to call fetchEvents
+	AfterAck    func(id uint64)
+	AfterClose  func() // setError has closed the queue
+}
+
+type verifGateQueue struct {
+	inner queue
+	h     VerifQueueHooks
+}
+
+func (g *verifGateQueue) clear() { g.inner.clear() }
+func (g *verifGateQueue) close() {
+	g.inner.close()
+	if g.h.AfterClose != nil {
+		g.h.AfterClose()
+	}
+}
+func (g *verifGateQueue) open()                     { g.inner.open() }
+func (g *verifGateQueue) setReadPosition(id uint64) { g.inner.setReadPosition(id) }
+func (g *verifGateQueue) add(event *Event)          { g.inner.add(event) }
+func (g *verifGateQueue) fetchEvents() []*Event {
+	if g.h.BeforeFetch != nil {
+		g.h.BeforeFetch()
+	}
+	return g.inner.fetchEvents()
+}
+func (g *verifGateQueue) ack(id uint64) {
+	g.inner.ack(id)
+	if g.h.AfterAck != nil {
+		g.h.AfterAck(id)
+	}
+}
+
+// GateQueue puts a pass-through wrapper around the peer's real eventQueue; every method delegates to the real
+// queue, the hooks only tell the harness where the stream goroutines are (and let it hold sendEvents before a fetch).
+// Call it before InitStream.
+func (v *VerifPeer) GateQueue(h VerifQueueHooks) {
+	if g, ok := v.p.queue.(*verifGateQueue); ok {
+		g.h = h
+		return
+	}
+	v.p.queue = &verifGateQueue{inner: v.p.queue, h: h}
+}
+
+// VerifQueueView is a snapshot of the real eventQueue.
+type VerifQueueView struct {
+	Events   []*Event // in list order
+	NextRead int64    // id of the element nextRead points to, -1 if nil, -2 if it points to a removed element
+	NextID   uint64
+	Closed   bool
+}
+
+func (v *VerifPeer) Queue() VerifQueueView {
+	var q queue = v.p.queue
+	if g, ok := q.(*verifGateQueue); ok {
+		q = g.inner
+	}
+	e := q.(*eventQueue)
+	e.cond.L.Lock()
+	defer e.cond.L.Unlock()
+	out := VerifQueueView{NextRead: -1, NextID: e.nextID, Closed: e.closed}
+	found := false
+	for el := e.l.Front(); el != nil; el = el.Next() {
+		out.Events = append(out.Events, el.Value.(*Event))
+		if el == e.nextRead {
+			found = true
+		}
+	}
+	if e.nextRead != nil {
+		if found {
+			out.NextRead = int64(e.nextRead.Value.(*Event).Id)
+		} else {
+			out.NextRead = -2
+		}
+	}
+	return out
+}
+
+// VerifNewEventQueue / VerifNewLRU expose the two data structures on their own.
+type VerifEventQueue struct{ q *eventQueue }
+
+func VerifNewEventQueue() *VerifEventQueue           { return &VerifEventQueue{newEventQueue()} }
+func (q *VerifEventQueue) Add(e *Event)              { q.q.add(e) }
+func (q *VerifEventQueue) Ack(id uint64)             { q.q.ack(id) }
+func (q *VerifEventQueue) SetReadPosition(id uint64) { q.q.setReadPosition(id) }
+func (q *VerifEventQueue) Fetch() []*Event           { return q.q.fetchEvents() }
+func (q *VerifEventQueue) Clear()                    { q.q.clear() }
+func (q *VerifEventQueue) Close()                    { q.q.close() }
+func (q *VerifEventQueue) Open()                     { q.q.open() }
+
+type VerifLRU struct{ l *lruCache }
+
+func VerifNewLRU(size int) *VerifLRU           { return &VerifLRU{newLRUCache(size)} }
+func (l *VerifLRU) Set(id uint64) (exist bool) { return l.l.set(id) }
